@@ -247,6 +247,7 @@ class Recorder:
         self.obs_space = venv_base.observation_space
         self.os_events = 0
         self.noise_get = lambda: None   # the action-noise object the library currently uses
+        self.in_load = False            # inside BaseAlgorithm.load (see install)
         self._noise_depth = 0
         self.marks = []      # [label, info, snapshot]
         self._undo = []
@@ -317,6 +318,24 @@ class Recorder:
         wrap_seed(np.random, "seed", "np")
         wrap_seed(th, "manual_seed", "torch")
         wrap_seed(self.act_space, "seed", "actSpace")
+        # load(): the loaded model owns an unpickled COPY of the action space; that copy is "the action space the library
+        # samples from" from the moment load() seeds it (the environment's own space object is no longer the library's)
+        from gymnasium import spaces as gsp
+
+        old_space_seed = gsp.Space.seed
+
+        def space_seed(self_, seed=None):
+            adopt = rec.in_load and self_ is not rec.act_space and type(self_) is type(rec.act_space) and self_ == rec.act_space
+            if not adopt:
+                return old_space_seed(self_, seed)
+            rec.in_load = False
+            rec.mark("before:actSpace", {"seed": None if seed is None else int(seed)})
+            rec.act_space = self_   # (re-pointed between the two marks: the seeding assigns the generator anyway)
+            r = old_space_seed(self_, seed)
+            rec.mark("seed:actSpace", {"seed": None if seed is None else int(seed)})
+            return r
+
+        self._patch(gsp.Space, "seed", space_seed)
         from stable_baselines3.common.vec_env.base_vec_env import VecEnv
 
         old_vseed = VecEnv.seed
@@ -639,6 +658,20 @@ def run_once(case, seed, amb):
     shared = make_shared(case)
     if case.get("cfg_poison"):
         poison_config(case, shared, amb)
+    donor_zip = donor_noise = None
+    if case.get("via_load"):
+        # a donor model (same configuration and seed, its own environment) is saved before anything is instrumented or
+        # poisoned; the model that trains is `load(zip, env=<this run's env>)`
+        import io
+
+        dbase, dvenv = build_env(case, amb)
+        try:
+            donor_zip = io.BytesIO()
+            dshared = make_shared(case)
+            build_model(case, seed, dvenv, dbase, dshared).save(donor_zip)
+            donor_noise = dshared["noise"]   # the loaded model's noise object is an unpickled copy of this one
+        finally:
+            dbase.close()
     junk = poison_globals(amb, case["amb_mode"])
     base, venv = build_env(case, amb)
     n = case["n_envs"]
@@ -646,9 +679,20 @@ def run_once(case, seed, amb):
     model = None
     try:
         rec.install()
-        rec.noise_get = lambda: (model.action_noise if model is not None else shared["noise"])
+        rec.noise_get = lambda: (model.action_noise if model is not None else
+                                 donor_noise if donor_zip is not None else shared["noise"])
         rec.mark("start")
-        model = build_model(case, seed, venv, base, shared)
+        if donor_zip is not None:
+            import stable_baselines3 as sb3
+            from stable_baselines3.common.logger import Logger
+
+            donor_zip.seek(0)
+            rec.in_load = True
+            model = getattr(sb3, case["algo"]).load(donor_zip, env=venv, device="cpu")
+            rec.in_load = False
+            model.set_logger(Logger(folder=None, output_formats=[]))
+        else:
+            model = build_model(case, seed, venv, base, shared)
         rec.mark("constructed")
         if case.get("opts") and case.get("opts_when") == "before_learn":
             model.get_env().set_options(make_options(case))
@@ -801,6 +845,12 @@ def gen_case(rng, thorough, widen):
                  opt_mem=(not her) and obs == "box" and rng.chance(0.15))
         if her:
             c["buffer_size"] = 200
+    # the model that trains is one obtained by save() + load(env=<this run's env>): load() re-seeds from the stored seed,
+    # so the run must still be a function of the seed alone (the loaded model's spaces / generators are NEW objects, the
+    # environment's own action space was never seeded by the library) — seeded change C10-g
+    c["via_load"] = wrap != "raw" and rng.chance(0.25)
+    if c["via_load"]:
+        c["cfg_poison"] = False   # this run's configuration objects are not used by a loaded model
     return c
 
 
@@ -980,6 +1030,8 @@ def shrink_candidates(case):
         if len(case["hashseeds"]) > 2:
             yield alt(hashseeds=case["hashseeds"][:2])
         return
+    if case.get("via_load"):
+        yield alt(via_load=False)
     if case.get("learn_calls", 1) > 1:
         yield alt(learn_calls=1)
     if case.get("opts"):
@@ -1318,7 +1370,7 @@ def check_cases(ctx, cases):
         rep.count(f"obs:{case['obs']}")
         rep.count(f"act:{case['act']}")
         rep.count("seed:" + ("0" if case["seed"] == 0 else "small" if case["seed"] < 10 else "large"))
-        for k in ("use_sde", "her", "noise", "env_py", "env_npg", "pre_env_seed", "pre_reset", "opt_mem", "cfg_poison"):
+        for k in ("use_sde", "her", "noise", "env_py", "env_npg", "pre_env_seed", "pre_reset", "opt_mem", "cfg_poison", "via_load"):
             if case.get(k):
                 rep.count(f"opt:{k}" + (f"={case[k]}" if isinstance(case[k], str) else ""))
         if case.get("opts"):
